@@ -37,6 +37,12 @@ Theorem C19_shatter : forall a c limit, limit_wf limit -> 0 <= c ->
 Proof. exact shatter_tiles. Qed.
 Print Assumptions C19_shatter.
 
+(* Splitting never uses more transfers than the limit forces: ceil(count / limit) pieces. *)
+Theorem C19_shatter_count : forall a c limit, limit_wf limit -> 0 <= c ->
+  Z.of_nat (length (shatter a c limit)) = (c + eff_limit a limit - 1) / eff_limit a limit.
+Proof. exact shatter_count. Qed.
+Print Assumptions C19_shatter_count.
+
 Theorem C19_tiles_exact : forall a out e x, tiles a out e -> (covered out x <-> a <= x < e).
 Proof. exact tiles_covered. Qed.
 Print Assumptions C19_tiles_exact.
